@@ -1,6 +1,6 @@
 (* C09 — one opset per domain; mixed-version programs build and keep their meaning.  Property theorems only. *)
 From Coq Require Import List String NArith Arith Bool.
-From Spox Require Import Base IR Show Build Sem Plan Validate BuildFacts Adapt AdaptFacts ReqFacts CoverFacts.
+From Spox Require Import Base IR Show Build Sem Plan Validate BuildFacts Adapt AdaptFacts PolicyFacts ReqFacts CoverFacts.
 Import ListNotations.
 
 (* The opset imports are max_opset_policy of the collected requirements (own nodes, subgraphs, function bodies, inlined models,
@@ -72,3 +72,28 @@ Theorem C09_imports_cover_every_emitted_node_by_construction :
       exists v, lookup String.eqb (fold_domain (fst dv)) (mimports m) = Some v /\ snd dv <= v.
 Proof. exact build_public_imports_cover. Qed.
 Print Assumptions C09_imports_cover_every_emitted_node_by_construction.
+
+(* The imports are a function of the SET of requirements: the order in which they are collected (traversal order, iteration order of a
+   set, what was built before) and repeated requirements do not matter ... *)
+Theorem C09_imports_depend_only_on_the_set_of_requirements :
+  forall r r', (forall dv, In dv r <-> In dv r') ->
+  forall d, lookup String.eqb d (max_opset_policy r) = lookup String.eqb d (max_opset_policy r').
+Proof. exact policy_depends_on_requirement_set. Qed.
+Print Assumptions C09_imports_depend_only_on_the_set_of_requirements.
+
+(* ... the alias "ai.onnx" of the default domain never gets an import of its own, and a requirement stated under the alias counts for
+   the default domain ... *)
+Theorem C09_alias_never_imported : forall r, lookup String.eqb "ai.onnx"%string (max_opset_policy r) = None.
+Proof. exact policy_never_imports_alias. Qed.
+Print Assumptions C09_alias_never_imported.
+
+Theorem C09_alias_requirement_counts_for_default_domain :
+  forall r v w, In ("ai.onnx"%string, v) r -> lookup String.eqb ""%string (max_opset_policy r) = Some w -> v <= w.
+Proof. exact policy_alias_counts_for_default. Qed.
+Print Assumptions C09_alias_requirement_counts_for_default_domain.
+
+(* ... and no domain is imported that nothing requires. *)
+Theorem C09_only_required_domains_imported :
+  forall r d, (forall dv, In dv r -> fold_domain (fst dv) <> d) -> lookup String.eqb d (max_opset_policy r) = None.
+Proof. exact policy_imports_only_required_domains. Qed.
+Print Assumptions C09_only_required_domains_imported.
